@@ -171,7 +171,16 @@ _packs = {}
 def make_pack(items):
     """Positional arguments as one opaque value; injective per signature."""
     terms = []
+    flat = []
     for it in items:
+        it = deref(it)
+        if isinstance(it, TupV):
+            # a vector argument travels as its entries (class tag in the signature)
+            flat.append(Con('<%s:%d>' % ((it.cls or 'tuple').split('.')[-1], len(it.items))))
+            flat.extend(it.items)
+        else:
+            flat.append(it)
+    for it in flat:
         it = deref(it)
         if isinstance(it, Con) and isinstance(it.v, str):
             terms.append(str_const(usort('Str'), it.v))
